@@ -37,6 +37,10 @@ def setup_paths() -> None:
             sys.path.remove(p)
     sys.path[:0] = [str(REPO), str(SHIM)]
     os.environ.setdefault("O2P_VERIF", "1")
+    os.environ.setdefault("TQDM_DISABLE", "1")
+    import logging
+    logging.getLogger("tel2puml").setLevel(logging.CRITICAL)
+    logging.getLogger().setLevel(logging.CRITICAL)
 
 
 def canon_key(obj: Any) -> str:
